@@ -37,6 +37,9 @@ func init() {
 	register("C16", "K-PRE", ruleKPre)
 	register("C16", "S-GLOBAL", ruleSGlobal)
 	register("C16", "B-PRIM", ruleBPrim)
+	register("C16", "K-REPL", ruleRepl)
+	register("C16", "S-SHARED", ruleSShared)
+	register("C16", "S-WRITES", ruleSWritesRT)
 
 	register("C10", "G-TOKENS", ruleGTokens)
 	register("C10", "G-LEVELS", ruleGLevels)
@@ -49,34 +52,49 @@ func init() {
 	register("C01", "G-ABBREV", ruleGAbbrev)
 	register("C01", "N-FRAME", ruleNFrame)
 	register("C01", "B-NAMETEST", ruleBNameTest)
+	register("C01", "N-DEPTH", ruleNDepth)
+	register("C01", "A-SMART", ruleASmart)
+	register("C01", "S-CLONE", ruleSClone)
+	register("C01", "S-ENTRY", ruleSEntry)
+	register("C01", "B-DEDUP", ruleDedup)
 
 	register("C15", "X-CENSUS", ruleXCensus)
 	register("C15", "X-TOTAL", ruleXTotal)
 	register("C15", "A-CELLS", ruleACells)
 	register("C15", "X-BOUNDS", ruleXBounds)
 	register("C15", "X-RESULT", ruleXResult)
+	register("C15", "K-REST", ruleKRest)
 
 	register("C09", "B-PRIM", ruleBPrim)
 	register("C09", "B-ARGS", ruleBArgs)
 	register("C09", "X-BOUNDS", ruleXBounds)
 	register("C09", "X-CENSUS", ruleXCensus)
 	register("C09", "N-RESTORE", ruleNRestore)
+	register("C09", "S-SHARED", ruleSShared)
+	register("C09", "S-WRITES", ruleSWritesRT)
+	register("C09", "S-POOL", ruleSPool)
 
 	register("C08", "A-OPS", ruleAOps)
 	register("C08", "B-PRIM", ruleBPrim)
 	register("C08", "G-LEVELS", ruleGLevels)
 	register("C08", "N-RESTORE", ruleNRestore)
 	register("C08", "X-CENSUS", ruleXCensus)
+	register("C08", "C08-FMT", ruleNumFormat)
+	register("C08", "S-SHARED", ruleSShared)
+	register("C08", "S-WRITES", ruleSWritesRT)
 
 	register("C14", "B-NAMETEST", ruleBNameTest)
 	register("C14", "G-EXPECT", ruleGExpect)
 	register("C14", "B-PRIM", ruleBPrim)
 	register("C14", "B-ARGS", ruleBArgs)
+	register("C14", "S-SHARED", ruleSShared)
+	register("C14", "S-WRITES", ruleSWritesRT)
 
 	register("C03", "N-POS", ruleNPos)
 	register("C03", "S-RESET", ruleSReset)
 	register("C03", "A-DISPATCH", ruleADispatch)
 	register("C03", "N-OWN", ruleNOwn)
+	register("C03", "C03-MERGE", ruleMerge)
 
 	register("C12", "N-FRAME", ruleNFrame)
 	register("C12", "N-ITER", ruleNIter)
@@ -84,6 +102,9 @@ func init() {
 	register("C12", "N-OWN", ruleNOwn)
 	register("C12", "C12-REV", ruleRev)
 	register("C12", "B-PRIM", ruleBPrim)
+	register("C12", "N-DEPTH", ruleNDepth)
+	register("C12", "S-SHARED", ruleSShared)
+	register("C12", "S-WRITES", ruleSWritesRT)
 
 	register("C11", "B-HASH", ruleBHash)
 	register("C11", "N-OWN", ruleNOwn)
@@ -91,6 +112,7 @@ func init() {
 	register("C11", "S-RESET", ruleSReset)
 	register("C11", "S-PROP", ruleSProp)
 	register("C11", "G-ABBREV", ruleGAbbrev)
+	register("C11", "B-DEDUP", ruleDedup)
 
 	register("C13", "N-OWN", ruleNOwn)
 	register("C13", "N-RESTORE", ruleNRestore)
@@ -104,6 +126,9 @@ func init() {
 	register("C07", "N-PEER", ruleNPeer)
 	register("C07", "C07-SC", ruleShortCircuit)
 	register("C07", "B-PRIM", ruleBPrim)
+	register("C07", "C07-BOOL", ruleBoolConv)
+	register("C07", "S-SHARED", ruleSShared)
+	register("C07", "S-WRITES", ruleSWritesRT)
 
 	register("C17", "G-PAIR", ruleGPair)
 	register("C17", "G-EXPECT", ruleGExpect)
